@@ -4,7 +4,7 @@ SEED_TREE: the git tree the change is applied to and the checks run against (def
 import json, os, subprocess, sys, time
 HERE = os.path.dirname(os.path.dirname(os.path.abspath(__file__)))
 ALSO = {"C01": ["C02", "C19", "C18", "C08"], "C02": ["C19", "C10"], "C03": ["C19", "C13"], "C04": ["C19"], "C05": ["C13", "C19"], "C06": ["C07"], "C07": ["C09"], "C08": ["C18"],
-        "C09": ["C15"], "C15": ["C14"], "C14": ["C15", "C16"], "C13": ["C03"], "C12": ["C11"], "C11": ["C12"], "C16": ["C17"], "C17": ["C06"], "C20": ["C18"]}
+        "C09": ["C15"], "C15": ["C14"], "C14": ["C15", "C16"], "C13": ["C03"], "C12": ["C11"], "C11": ["C12"], "C16": ["C17"], "C17": ["C06"], "C19": ["C18"], "C20": ["C18"]}
 TREE = os.environ.get("SEED_TREE", "/repo")
 SDIR = os.environ.get("SEED_DIR", "seeded")
 ids = sys.argv[1:] or sorted(d for d in os.listdir(os.path.join(HERE, SDIR)) if d.startswith("C"))
